@@ -194,6 +194,19 @@ type c20W struct {
 	mu     sync.Mutex
 	pool   map[string][]string // live artifacts handed from one goroutine to the others
 	lent   []c20client         // clients of one goroutine the others may use (and the owner may delete)
+	// suite_c20cold.go: the FAPI providers and the cold-start providers mark their handler families and outcomes
+	// (suffix "@fapi1", "@fapi2", "@cold"), run flows of their own and send nothing but client_id with a request_uri
+	suffix  string
+	profile string // "" (= openid) | openid | fapi1 | fapi2
+	flows   []c20Flow
+}
+
+// the outer parameters that go with a request_uri
+func (w *c20W) outer(clientID, requestURI string) url.Values {
+	if strings.HasPrefix(w.profile, "fapi") {
+		return url.Values{"client_id": {clientID}, "request_uri": {requestURI}}
+	}
+	return c20Outer(clientID, requestURI)
 }
 
 func (w *c20W) put(kind, s string) {
@@ -443,7 +456,7 @@ func (g *c20G) call(fam, method, target, body, ct string, hdr map[string]string)
 		req.Header.Set(k, v)
 	}
 	rec := httptest.NewRecorder()
-	rq := g.begin(fam)
+	rq := g.begin(fam + g.w.suffix)
 	g.w.h.ServeHTTP(rec, req)
 	g.end(rq)
 	return rec
@@ -460,7 +473,16 @@ func (g *c20G) form(fam, path string, v url.Values) map[string]any {
 	return m
 }
 
-func (g *c20G) count(k string) { g.log.cnt[k]++ }
+func (g *c20G) count(k string) {
+	if sfx := g.w.suffix; sfx != "" { // "<family>[:<outcome>]" -> "<family><suffix>[:<outcome>]"
+		if i := strings.Index(k, ":"); i >= 0 {
+			k = k[:i] + sfx + k[i:]
+		} else {
+			k += sfx
+		}
+	}
+	g.log.cnt[k]++
+}
 func (g *c20G) outcome(fam string, m map[string]any) {
 	if e := str(m, "error"); e != "" {
 		g.count(fam + ":" + e)
@@ -729,7 +751,7 @@ func (g *c20G) flowShared() {
 	case 3:
 		if p := g.w.take(g.r, pick(g.r, []string{"request_uri", "request_uri-open", "request_uri-open"})); len(p) == 3 {
 			if c, ok := g.clientByID(p[1]); ok {
-				rec := g.call("request_uri-shared", "GET", "/authorize?"+c20Outer(p[1], p[0]).Encode(), "", "", nil)
+				rec := g.call("request_uri-shared", "GET", "/authorize?"+g.w.outer(p[1], p[0]).Encode(), "", "", nil)
 				g.carryOn("request_uri-shared", "callback", rec, c, p[2], false)
 			}
 		}
@@ -796,7 +818,7 @@ func (g *c20G) flowRevoke() {
 }
 
 func (g *c20G) api(fam string, f func(ctx context.Context) error) error {
-	rq := g.begin(fam)
+	rq := g.begin(fam + g.w.suffix)
 	err := f(context.WithValue(context.Background(), c20key{}, g.log))
 	g.end(rq)
 	if err != nil {
@@ -982,19 +1004,23 @@ var c20Flows = []c20Flow{
 
 func (g *c20G) run() {
 	// first every flow once (in an order of the goroutine's own), then by weight
+	flows := c20Flows
+	if g.w.flows != nil {
+		flows = g.w.flows
+	}
 	total := 0
-	for _, f := range c20Flows {
+	for _, f := range flows {
 		total += f.weight
 	}
-	for _, i := range g.r.Perm(len(c20Flows)) {
+	for _, i := range g.r.Perm(len(flows)) {
 		if g.late() {
 			return
 		}
-		c20Flows[i].f(g)
+		flows[i].f(g)
 	}
 	for !g.late() {
 		k := g.r.Intn(total)
-		for _, f := range c20Flows {
+		for _, f := range flows {
 			if k < f.weight {
 				f.f(g)
 				break
@@ -1091,20 +1117,54 @@ func c20Work(ctx *RunCtx) {
 		}
 		worlds[rot] = w
 	}
+	fapi := map[string]*c20W{}
+	for _, p := range c20FapiProfiles {
+		w, err := newC20FapiWorld(p)
+		if err != nil {
+			panic(err)
+		}
+		fapi[p] = w
+	}
 	// (goroutines, share of the time); the provider alternates, both get a 16-goroutine level
 	type level struct {
 		g     int
 		share float64
+		fapi  string
 	}
-	levels := []level{{2, 0.12}, {4, 0.13}, {8, 0.21}, {16, 0.27}, {16, 0.27}}
+	levels := []level{{2, 0.10, ""}, {4, 0.11, ""}, {8, 0.17, ""}, {16, 0.22, ""}, {16, 0.22, ""},
+		{8, 0.045, "fapi2"}, {8, 0.045, "fapi1"}, {16, 0.045, "fapi2"}, {16, 0.045, "fapi1"}}
 	if !ctx.Quick() {
-		levels = []level{{2, 0.04}, {4, 0.05}, {8, 0.08}, {16, 0.1}, {16, 0.1}, {3, 0.04}, {6, 0.06}, {12, 0.1}, {16, 0.1}, {16, 0.1}, {5, 0.03}, {16, 0.1}, {16, 0.1}}
+		levels = []level{{2, 0.035, ""}, {4, 0.045, ""}, {8, 0.07, ""}, {16, 0.09, ""}, {16, 0.09, ""}, {4, 0.02, "fapi2"}, {4, 0.02, "fapi1"},
+			{3, 0.035, ""}, {6, 0.05, ""}, {12, 0.09, ""}, {16, 0.09, ""}, {16, 0.09, ""}, {8, 0.025, "fapi2"}, {8, 0.025, "fapi1"},
+			{5, 0.025, ""}, {16, 0.09, ""}, {16, 0.09, ""}, {16, 0.03, "fapi2"}, {16, 0.03, "fapi1"}, {2, 0.01, "fapi2"}, {2, 0.01, "fapi1"}}
 	}
 	total := time.Duration(ctx.N(30, 240)) * time.Second
 	base := time.Now()
 	var all []*c20req
 	served := 0
 	outcomes := map[string]int{}
+	collect := func(logs []*c20glog) (n int) {
+		for _, l := range logs {
+			all = append(all, l.reqs...)
+			n += len(l.reqs)
+			for k, v := range l.cnt {
+				outcomes["outcome/"+k] += v
+			}
+		}
+		served += n
+		return n
+	}
+	// cold start first (and once more at the end): fresh providers, concurrent FIRST requests of static clients
+	coldRounds := ctx.N(36, 240)
+	coldStats := map[string]int{}
+	cold := func(part int64, rounds int) {
+		logs, stats := c20ColdStart(ctx.Seed*10+part, rounds, base)
+		collect(logs)
+		for k, v := range stats {
+			coldStats[k] += v
+		}
+	}
+	cold(0, coldRounds/2)
 	runLevel := func(li int, w *c20W, n int, d time.Duration) {
 		deadline := time.Now().Add(d)
 		var wg sync.WaitGroup
@@ -1119,33 +1179,60 @@ func c20Work(ctx *RunCtx) {
 			}(gs[i])
 		}
 		wg.Wait()
-		n = 0
+		var logs []*c20glog
 		for _, g := range gs {
-			all = append(all, g.log.reqs...)
-			n += len(g.log.reqs)
-			for k, v := range g.log.cnt {
-				outcomes["outcome/"+k] += v
-			}
+			logs = append(logs, g.log)
 		}
-		served += n
-		ctx.Meta.Dist[fmt.Sprintf("level/%02d:goroutines=%d:provider=%s", li, len(gs), w.name)] = n
+		ctx.Meta.Dist[fmt.Sprintf("level/%02d:goroutines=%d:provider=%s", li, len(gs), w.name)] = collect(logs)
 	}
 	for li, lv := range levels {
-		runLevel(li, worlds[(li+int(ctx.Seed))%2 == 0], lv.g, time.Duration(float64(total)*lv.share))
+		w := worlds[(li+int(ctx.Seed))%2 == 0]
+		if lv.fapi != "" {
+			w = fapi[lv.fapi]
+		}
+		runLevel(li, w, lv.g, time.Duration(float64(total)*lv.share))
 	}
+	cold(1, coldRounds-coldRounds/2)
 	coverage := func() map[string]int {
 		d := map[string]int{}
 		for k, v := range outcomes {
+			d[k] = v
+		}
+		for k, v := range coldStats {
 			d[k] = v
 		}
 		c20Coverage(all, d)
 		return d
 	}
 	// a slow machine serves fewer requests: rather than report a gap of the workload, go on (16 goroutines, a few
-	// seconds at a time, both providers in turn) until everything the property quantifies over has been exercised
-	for extra := 0; extra < 8 && len(c20Gaps(coverage())) > 0; extra++ {
+	// seconds at a time, the provider that has a gap - the OpenID ones in turn) until everything the property
+	// quantifies over has been exercised
+	for extra := 0; extra < 10; extra++ {
+		gaps := c20Gaps(coverage())
+		if len(gaps) == 0 {
+			break
+		}
 		li := len(levels) + extra
-		runLevel(li, worlds[(li+int(ctx.Seed))%2 == 0], 16, total/8)
+		w := worlds[(li+int(ctx.Seed))%2 == 0]
+		onlyFapi := true
+		for _, gp := range gaps {
+			if !strings.Contains(gp, "@fapi") {
+				onlyFapi = false
+			}
+		}
+		if onlyFapi || extra%3 == 2 {
+			for _, gp := range gaps {
+				for _, p := range c20FapiProfiles {
+					if strings.Contains(gp, "@"+p) {
+						w = fapi[p]
+					}
+				}
+			}
+		}
+		if strings.Contains(strings.Join(gaps, " "), "cold-start") {
+			cold(int64(2+extra), 12)
+		}
+		runLevel(li, w, 16, total/10)
 	}
 	for k, v := range coverage() {
 		ctx.Meta.Dist[k] = v
